@@ -221,6 +221,11 @@ class Xform(ast.NodeTransformer):
                 return ast.copy_location(ast.Call(ast.Name("__pyvc_map__", ast.Load()), [lam, g.iter], []), n)
         return n
 
+    def visit_GeneratorExp(self, n):
+        # a single-generator generator expression consumed by sorted()/list()/tuple()/set(): same rewrite as a list
+        r = self.visit_ListComp(ast.copy_location(ast.ListComp(n.elt, n.generators), n))
+        return r
+
     def visit_DictComp(self, n):
         self.generic_visit(n)
         if len(n.generators) == 1 and not n.generators[0].ifs:
